@@ -17,6 +17,8 @@ pub enum LT {
     Enum(String),   // enum with unit variants only, emitted as a Lean inductive
     Struct(String), // a struct reached through a place path (never a Lean value by itself)
     Opaque,         // anything else: carried as the source text
+    OpFn,           // `fn(f64, f64) -> Value`: an operator closure handed to binary_op_impl
+    VmT,            // the abstract interpreter state
 }
 
 impl LT {
@@ -42,6 +44,8 @@ impl LT {
             }
             LT::Enum(n) => format!("Fns.{}", n),
             LT::Struct(_) | LT::Opaque => "String".into(),
+            LT::OpFn => "(UInt64 → UInt64 → Rs.M Rs.Value)".into(),
+            LT::VmT => "Rs.Vm".into(),
         }
     }
     fn ity(&self) -> Option<&'static str> {
@@ -84,6 +88,8 @@ enum Pre {
     Try(String, String, String),
     /// `let var := term; …`
     Let(String, String),
+    /// an operation on the abstract interpreter state: `Rs.M.bind (term) fun r_ => let var := r_.1; let vm_ := r_.2; …`
+    BindVm(String, String),
 }
 
 struct Tx {
@@ -103,6 +109,7 @@ fn wrap_pre(pre: &[Pre], body: String) -> String {
             Pre::Bind(v, t) => format!("(Rs.M.bind {} fun {} =>\n  {})", t, v, out),
             Pre::Try(v, t, exit) => format!("(match {} with\n  | .error e_ => {}\n  | .ok {} =>\n  {})", t, exit, v, out),
             Pre::Let(v, t) => format!("(let {} := {};\n  {})", v, t, out),
+            Pre::BindVm(v, t) => format!("(Rs.M.bind {} fun r_ =>\n  let {} := r_.1; let vm_ := r_.2;\n  {})", t, v, out),
         };
     }
     out
@@ -156,6 +163,8 @@ struct Cx<'a> {
     loop_depth: usize,
     epoch: usize,
     struct_params: BTreeMap<String, Ty>,
+    /// translating a method of `Vm` over the abstract interpreter state `vm_ : Rs.Vm`
+    vm_mode: bool,
 }
 
 #[derive(Clone)]
@@ -165,6 +174,8 @@ pub struct Sig {
     pub ret: LT,
     /// (extra inputs, has extra outputs): only plain functions (no places, no effects) may be called from translated code
     pub plain: bool,
+    /// a method whose only extra input is its receiver (`self` by value or by shared reference): callable as `recv.name(args)`
+    pub self_only: bool,
 }
 
 fn lean_ident(s: &str) -> String {
@@ -186,6 +197,9 @@ fn lean_ident(s: &str) -> String {
 
 impl<'a> Cx<'a> {
     fn un<T>(&self, why: impl Into<String>) -> R<T> {
+        if std::env::var("XLATE_DEBUG").is_ok() {
+            eprintln!("UN {}: {}", self.item, std::backtrace::Backtrace::force_capture());
+        }
         unsup(&self.file, &self.item, why)
     }
 
@@ -340,6 +354,11 @@ impl<'a> Cx<'a> {
 
     /// The current Lean variable for a `self` place; an unread place becomes an input of the generated function.
     fn place(&mut self, path: &str) -> R<Var> {
+        if self.vm_mode {
+            if let Some((term, ty)) = vm_place(path) {
+                return Ok(Var { lean: term.to_string(), ty });
+            }
+        }
         if let Some(v) = self.places.get(path) {
             return Ok(v.clone());
         }
@@ -411,5 +430,17 @@ impl<'a> Cx<'a> {
 
     fn const_value(&self, name: &str) -> Option<i128> {
         self.consts.get(name).copied()
+    }
+}
+
+/// The places of `Vm` that the abstract interpreter state `Rs.Vm` carries.
+fn vm_place(path: &str) -> Option<(&'static str, LT)> {
+    let p = path.replace("active_fiber_mut()", "active_fiber()");
+    match p.as_str() {
+        "self.ip" => Some(("vm_.ip", LT::I("isize"))),
+        "self.active_chunk.constants" => Some(("vm_.consts", LT::List(Box::new(LT::Value)))),
+        "self.active_fiber().stack" => Some(("vm_.stack", LT::List(Box::new(LT::Value)))),
+        "self.active_fiber().current_frame().unwrap().slot_base" => Some(("vm_.slotBase", LT::I("usize"))),
+        _ => None,
     }
 }
